@@ -698,6 +698,10 @@ func main() {
 	raceTData := flag.Int("race-tdata", 800, "cancel-race sweep: data timeout, ms")
 	raceSlack := flag.Int("race-slack", 300, "cancel-race sweep: a return later than this after the cancellation is late, ms")
 	raceNeed := flag.Int("race-need", 3, "cancel-race sweep: stop after this many late returns")
+	conc := flag.Int64("conc", 0, "concurrent stage: one Scanner shared by many goroutines, at most this many probes (0: skip)")
+	concMS := flag.Int("conc-ms", 2500, "concurrent stage: at most this long")
+	concG := flag.Int("conc-g", 64, "concurrent stage: goroutines")
+	concOnly := flag.Bool("conc-only", false, "run ONLY the concurrent stage")
 	replay := flag.String("replay", "", "JSON file with a list of cases to run again (inputs are taken, observations overwritten)")
 	flag.Parse()
 
@@ -705,6 +709,13 @@ func main() {
 		// warm-up, then the sweep; nothing else
 		raceSweep(12, 1000, *raceTData, *raceSlack, 100, 4, 1000)
 		row := raceSweep(*race, 1000, *raceTData, *raceSlack, 100, 4, *raceNeed)
+		w := hlib.NewOut(*out)
+		w.Put(row)
+		w.Close()
+		return
+	}
+	if *concOnly {
+		row := concStage(*seed, *concG, *conc, time.Duration(*concMS)*time.Millisecond, 1500)
 		w := hlib.NewOut(*out)
 		w.Put(row)
 		w.Close()
@@ -799,5 +810,8 @@ func main() {
 	defer w.Close()
 	for _, c := range g.cases {
 		w.Put(c)
+	}
+	if *conc > 0 && *replay == "" {
+		w.Put(concStage(*seed, *concG, *conc, time.Duration(*concMS)*time.Millisecond, 1500))
 	}
 }
